@@ -907,6 +907,46 @@ func moreEmpties(t *rapid.T, r *ref.RHS) {
 	}
 }
 
+// fixed shapes that the random generator reaches only now and then: the same alternatives in two orders under one
+// operator (one synthesised rule), the same operand under every operator, brace literals under one operator
+func TestFixedShapes(t *testing.T) {
+	rec.Begin(t)
+	rec.Rule(rule)
+	if rec.Shard() != 0 {
+		t.Skip("seed independent: shard 0 only")
+	}
+	tok := func(s string) *ref.RHS { return &ref.RHS{K: "tok", Name: s} }
+	str := func(s string) *ref.RHS { return &ref.RHS{K: "str", Name: s} }
+	w := func(k string, s *ref.RHS) *ref.RHS { return &ref.RHS{K: k, Subs: []*ref.RHS{s}} }
+	cat := func(s ...*ref.RHS) *ref.RHS { return &ref.RHS{K: "cat", Subs: s} }
+	alt := func(s ...*ref.RHS) *ref.RHS { return &ref.RHS{K: "alt", Subs: s} }
+	decls := func(rhs *ref.RHS) *ref.SpecModel {
+		return &ref.SpecModel{Name: "g", NameSemi: true, Decls: []*ref.Decl{
+			{Kind: "token", Name: "AA", TokKind: "string", Text: "x", Semi: true},
+			{Kind: "token", Name: "BB", TokKind: "regex", Text: "[0-9]+", Semi: true},
+			{Kind: "rule", Name: "start", RHS: rhs, Semi: true},
+		}}
+	}
+	var models []*ref.SpecModel
+	for _, k := range []string{"grp", "opt", "star", "plus"} {
+		models = append(models,
+			decls(cat(w(k, alt(tok("AA"), tok("BB"))), str("m"), w(k, alt(tok("BB"), tok("AA"))))),
+			decls(cat(w(k, alt(str("a"), cat(str("b"), str("c")))), w(k, alt(cat(str("b"), str("c")), str("a"))), w(k, alt(str("a"), cat(str("b"), str("c")))))),
+			decls(cat(w(k, str("{")), w(k, str("}")), w(k, str("(")), w(k, str(")")), w(k, str("[")), w(k, str("]")))),
+		)
+	}
+	models = append(models, decls(cat(w("grp", tok("AA")), w("opt", tok("AA")), w("star", tok("AA")), w("plus", tok("AA")), w("opt", w("grp", tok("AA"))))))
+	for _, m := range models {
+		toks := m.Tokens()
+		text, placed := ref.Render(toks, ref.PlainSeps(toks))
+		nt, cls := features(m)
+		rec.Case(text, nt, append(cls, "fixed_shape")...)
+		if err := checkModel(m, text, placed); err != nil {
+			rec.Fail(t, "model", input{Model: m, Text: text}, "%v", err)
+		}
+	}
+}
+
 // large specifications (gen.BigModels): more operands, rules and declarations than any block or table of a tree builder
 func TestLargeSpecifications(t *testing.T) {
 	rec.Begin(t)
